@@ -1,6 +1,7 @@
 import Walrus.Driver.ArenaD
 import Walrus.Driver.SectionsD
 import Walrus.Driver.VisitD
+import Walrus.Driver.BodyD
 
 open Walrus.Driver
 
@@ -9,6 +10,7 @@ def dispatch (line : String) : String :=
   | "arena" :: rest => handleArena rest
   | "sect" :: rest => handleSect rest
   | "visit" :: rest => handleVisit rest
+  | "builder" :: rest => handleBuilder rest
   | _ => "bad-request"
 
 partial def loop (h : IO.FS.Stream) (out : IO.FS.Stream) : IO Unit := do
